@@ -14,7 +14,9 @@ CFG = {
             "between the end of one object and the next declared offset. That this reader returns the value that was spelled there is C02's "
             "statement (spell_parse, still partial); here it is decided by the oracle on generated streams (the oracle knows the spelled values).",
         "(header layouts)": "the header theorems quantify over all white-space layouts (any run of the six PDF white-space bytes); headers "
-            "containing comments are covered by the correspondence run only",
+            "containing comments are decided by the oracle on generated streams (the theorems about the CONTENT make no assumption on the gaps, "
+            "so comments in gaps - terminated or not before the next offset - are inside objstm_roundtrip; the generator and the exhaustive "
+            "{1,blank,%,LF} space exercise them)",
         "(filters)": "the filter decoders are a parameter of the model (C06 owns them): the theorems hold for every decoder function; "
             "the real FlateDecode path is exercised by the harness on generated zlib streams",
     },
@@ -22,10 +24,10 @@ CFG = {
     "exhaustive": {"quick": False, "thorough": True},
     "shrink": False,
     "rule": "corpus (defect #17 input, the unit-test fixtures, one case per rejection rule, huge numbers) + exhaustive small space: every content over "
-            "{1,2,blank,x} of length <= 4 (thorough: <= 5) x every offset pair (o0,o1) in [0,len+1]^2 under a 2-pair header (quick: every 3rd), judged "
-            "by a three-line digit reader + random streams: 1..6 members with values from the C02 generator spelled by the C02 encoder, ids incl. "
+            "{1,2,blank,x} and every content over {1,blank,%,LF} containing % or LF (comments with and without a terminating LF before an offset), of length <= 4 (thorough: <= 5), x every offset pair (o0,o1) in [0,len+1]^2 under a 2-pair header (quick: every 3rd), judged "
+            "by a small digit reader that looks only at the bytes from the declared offset on + random streams: 1..6 members with values from the C02 generator spelled by the C02 encoder, ids incl. "
             "2^32 and 2^63-1, three gap styles (contiguous as the unit tests / white space / arbitrary non-object bytes incl. unbalanced delimiters, "
-            "comments, random bytes, before the first and after the last member), leading white space inside a member, random header layouts (all six "
+            "comments terminated and NOT terminated before the next declared offset (object-like comment text, CR-only line ends), random bytes, before the first and after the last member), leading white space inside a member, random header layouts (all six "
             "white-space bytes, comments, padding and junk before /First), 5 dictionary spellings, predefined unrelated ids and same id under "
             "generation 1, view cursor not at 0, 1/6 of them again through FlateDecode (stored-block zlib, junk before the cursor); per stream one "
             "single-rule corruption: non-increasing offset, /N larger than the pairs present, /First >= |data|, next offset inside the previous "
